@@ -331,6 +331,9 @@ pub fn record(args: &[String]) {
 		g.no_zero_volume = cfg.to_json().as_object().unwrap().values().any(|v| v == "volume" || v == "volumed_price");
 		// TrendStrengthIndex is a correlation: 0/0 on a flat window (undefined); its signal machine is specified on defined values
 		g.no_plateau = name == "TrendStrengthIndex";
+		if std::env::var("YV_FORCE_DROP").is_ok() {
+			g.force_drop_at = Some(60);
+		}
 		let first = g.candle();
 		let inst = catch(|| cfg.init(&first));
 		let res = match &inst {
